@@ -6,6 +6,21 @@ sys.path.insert(0, ROOT)
 TECH = "bounded symbolic execution of the real Python code (CrossHair 0.0.110) with z3 deciding every path; counterexamples replayed concretely"
 
 CHECKS = {
+    "C04": dict(
+        text="For 35 pattern shapes x 28 payload shapes (depth<=2, width<=3: lists, sets, dicts, nested, regex objects, scalars) with symbolic int leaves 0..2 "
+             "and symbolic string leaves (len<=2, any code point), z3 proves on every path of the real matcher that score>0 iff a reference matcher written "
+             "from the statement accepts, exact 0.9^unmentioned*priority scores at event level, instance binding (action_uid / flow instance), and the same "
+             "equivalence end to end through run_to_completion on `match Ev(p=<pattern>)` programs.",
+        note="Trusted: CrossHair's int/str/regex models, the 45-line ref_match oracle. Outside: depth>2, floats, ComparisonExpression, bool-vs-int leaves.",
+        ref="4/C04"),
+    "C15": dict(
+        text="(a) cache key: for all pairs of conversations of <=2 (thorough 3) messages with symbolic texts, conversations whose full content joins differ get "
+             "different keys (nothing dropped/normalised); the raw injectivity statement is re-refuted each run and must fall in the recorded finding's region. "
+             "(c) LLMParams: every interleaving of 2 (thorough 3) enter/call/exit tasks on a shared LLM object: disciplined (sequential / properly nested) schedules "
+             "are proved correct; undisciplined overlap is the recorded finding.",
+        note="Two genuine defects are recorded as known findings (not repairable with a small patch: key format pinned by tests; shared mutable LLM object). "
+             "LLMRails-level interleavings (b,d) not yet covered here.",
+        ref="4/C15"),
     "C18": dict(
         text="For every text up to 4 code points (quick; 5 thorough) over the whole Unicode alphabet and every split into 1-3 non-empty chunks, "
              "for 10 prefix/suffix/stop configurations, z3 proves on every path of the real StreamingHandler that the delivered stream, the "
